@@ -47,6 +47,7 @@ type Run struct {
 	nsample  int
 	t0       time.Time
 	counters map[string]int64
+	observed map[string]bool
 }
 
 func envInt(k string, d int64) int64 {
@@ -282,6 +283,31 @@ func (r *Run) Count(name string, n int) {
 	r.mu.Lock()
 	r.counters[name] += int64(n)
 	r.mu.Unlock()
+}
+
+// Observe records a value of something the monitors saw (an interleaving shape, an outcome of a
+// race, ...). The driver reports, per name, how many DISTINCT values were observed in the whole run
+// and a few examples. Values are deduplicated per process before they are journaled.
+func (r *Run) Observe(name, value string) {
+	if len(value) > 200 {
+		h := fnv.New64a()
+		h.Write([]byte(value))
+		value = value[:160] + fmt.Sprintf("~%x", h.Sum64())
+	}
+	k := name + "\x00" + value
+	r.mu.Lock()
+	if r.observed == nil {
+		r.observed = map[string]bool{}
+	}
+	seen := r.observed[k]
+	if !seen && len(r.observed) < 200000 {
+		r.observed[k] = true
+	}
+	r.mu.Unlock()
+	if seen {
+		return
+	}
+	r.line(map[string]interface{}{"t": "obs", "name": name, "v": value})
 }
 
 // Sample records an example case (the driver keeps the first few).
